@@ -5,7 +5,7 @@ CB = 'yaclib::detail::BaseCore::_callback'
 
 
 def run(ctx):
-    fbs = ctx.facts(['K17', 'K20'], kinds=('probe', 'lib'), only=r'p_async\.cpp$|p_coro\.cpp$|src/', tests=r'/test/')
+    fbs = ctx.facts(['K17', 'K20'], kinds=('probe', 'lib'), only=r'p_async\.cpp$|p_coro\.cpp$|p_when\.cpp$|src/', tests=r'/test/')
     rr = ctx.rule('R-READY', 'shared readiness predicates are false on Empty and Callback', minimum=3)
     rw = ctx.rule('R-WORD', 'protocol of _callback (shared push: CAS in a loop that re-tests kResult)', minimum=10)
     ro = ctx.rule('R-ORDER', 'role minimum orders of _callback', minimum=10)
@@ -41,6 +41,8 @@ def run(ctx):
         walk = [f for f in fb.by_qn('yaclib::detail::BaseCore::SetResultImpl') if f.fta and f.fta[-1] in ('true', '1')]
         lib_exec.check_dequeue(ctx, fb, rs, walk)
         lib_core.check_moveout(ctx, fb, rm)
+        if lib_core.check_move_sites(ctx, fb, rm) < 5:
+            ctx.broken('R-MOVEOUT.site: fewer than 5 move-out sites found in %s' % cfg)
         lib_core.check_shared_factories(ctx, fb, rm)
         lib_core.check_const_observers(ctx, fb, rk)
         lib_core.check_connect(ctx, fb, rcn)
